@@ -24,6 +24,7 @@ from ..core import Outcome
 from .. import envs, program, proggen, lean
 from .traces import TraceProp, weave, SEG_FIELDS
 from .. import tracecmp
+from .. import tracer as _tracer
 
 
 class Injector(object):
@@ -37,7 +38,7 @@ class Injector(object):
         event.listen(engine, 'before_cursor_execute', self.hook)
 
     def hook(self, conn, cursor, statement, parameters, context, executemany):
-        if not self.active:
+        if not self.active or _tracer.PROBING:
             return
         if statement.strip().upper().startswith(('SAVEPOINT', 'RELEASE', 'ROLLBACK', 'BEGIN', 'COMMIT')):
             return
